@@ -1226,9 +1226,19 @@ def family_alias(draw: T.Any) -> dict:
     stmts.append(['assign', a, e])
     g.env[a] = ta
     aliases = [a]
+    script: T.List[int] = []
+    focus: T.Optional[str] = None
     for _ in range(2 + g.i(6)):
-        k = g.i(12)
-        src = g.pick(aliases)
+        if not script:
+            focus = None
+        k = script.pop(0) if script else g.i(15)
+        src = focus or g.pick(aliases)
+        if k >= 12:
+            # burst: "mutate", take an alias in one of the five ways, "mutate" again - with nothing else in between
+            # (an implementation that updates a value in place when it believes nobody else holds it is caught here)
+            script = [5, g.pick([0, 1, 2, 3, 4]), 5, 5][:3 + g.i(2)]
+            focus = src
+            continue
         if k == 0:
             b = g.fresh('b')
             stmts.append(['assign', b, ['id', src]])
@@ -1254,7 +1264,7 @@ def family_alias(draw: T.Any) -> dict:
             aliases.append(b)
         elif k <= 8:
             # "mutation" through one alias
-            tgt = g.pick(aliases)
+            tgt = focus or g.pick(aliases)
             tt = g.env[tgt]
             if tt[0] == 'arr':
                 add = g.e(ARR(tt[1], None), 1) if g.chance(50) or tt[1] is None else g.e(tt[1], 1)
@@ -1266,7 +1276,7 @@ def family_alias(draw: T.Any) -> dict:
                 add = g.e(STR, 1)
             else:
                 add = g.e(INT, 1)
-            if g.chance(70):
+            if focus is not None or g.chance(70):
                 stmts.append(['plusassign', tgt, add])
             else:
                 stmts.append(['assign', tgt, ['bin', '+', ['id', tgt], add if tt[0] != 'arr' or add[0] == 'arr' else ['arr', [add]]]])
